@@ -124,6 +124,14 @@ structure Code.Sound (c : Code) : Prop where
   dispSendArms : sameArms c.dispSendArms [ctxDoneArm, .send "in"] = true
   workerSendArms : sameArms c.workerSendArms [.send "c", ctxDoneArm] = true
   nextArms : sameArms c.nextArms [.recv "s.c", ctxDoneArm] = true
+  waitHasReady : c.dispWaitArms.contains (.recv "ready") = true
+  waitHasCtx : c.dispWaitArms.contains ctxDoneArm = true
+  sendHasIn : c.dispSendArms.contains (.send "in") = true
+  sendHasCtx : c.dispSendArms.contains ctxDoneArm = true
+  workerHasC : c.workerSendArms.contains (.send "c") = true
+  workerHasCtx : c.workerSendArms.contains ctxDoneArm = true
+  nextHasC : c.nextArms.contains (.recv "s.c") = true
+  nextHasCtx : c.nextArms.contains ctxDoneArm = true
   lastWorker : ∀ d p, c.lastWorker d p = decide (d = p)
   workerFailed : ∀ b, c.workerFailed b = b
   nextReady : ∀ l m i, c.nextReady l m i = (decide (l > 0) && decide (m = i))
@@ -252,7 +260,7 @@ structure St where
   srcEnded : Bool
   fBegun : List (Nat × Nat)
   fEnded : List (Nat × Res)
-  /-- results dropped by a worker that saw `ctx.Done()`, and items dropped by the dispatcher -/
+  /-- indices whose result never reaches `c`: `f` failed, or the worker saw `ctx.Done()` -/
   dropped : List Nat
   /-- tokens taken by the dispatcher whose item was never sent -/
   lost : Nat
@@ -329,12 +337,12 @@ def ctxErr (s : St) : Err := match s.ctxCause with
   | some c => c.err
   | none => .ctxLib
 
-/-- errgroup bookkeeping of a goroutine whose function returned `r` -/
+/-- errgroup bookkeeping of a goroutine whose function returned `r`: the first non-nil error is
+recorded and the context cancelled; `wg.Done()` -/
 def egRecord (s : St) (r : Option Err) : St :=
-  match r, s.egErr with
-  | some e, none =>
-    { s with egErr := some e, ctxCause := if s.ctxCause.isSome then s.ctxCause else some .lib, egLive := s.egLive - 1 }
-  | _, _ => { s with egLive := s.egLive - 1 }
+  { s with egErr := if s.egErr.isSome then s.egErr else r,
+           ctxCause := if r.isSome && s.egErr.isNone && s.ctxCause.isNone then some .lib else s.ctxCause,
+           egLive := s.egLive - 1 }
 
 /-- the consumer's `if s.h.Len() > 0 && s.h.Peek().idx == s.i` -/
 def canYield (cfg : Cfg) (s : St) : Bool :=
@@ -371,7 +379,7 @@ def step (cfg : Cfg) (s : St) : Label → Option St
     match s.disp with
     | .waitReady _ =>
       if cfg.code.dispWaitArms.contains ctxDoneArm && ctxDone s then
-        some { s with disp := .exiting (some (ctxErr s)), dropped := s.dropped ++ [s.dispI] }
+        some { s with disp := .exiting (some (ctxErr s)) }
       else none
     | _ => none
   | .dSend w =>
@@ -386,7 +394,7 @@ def step (cfg : Cfg) (s : St) : Label → Option St
     match s.disp with
     | .sendIn _ =>
       if cfg.code.dispSendArms.contains ctxDoneArm && ctxDone s then
-        some { s with disp := .exiting (some (ctxErr s)), dropped := s.dropped ++ [s.dispI], lost := s.lost + 1 }
+        some { s with disp := .exiting (some (ctxErr s)), lost := s.lost + 1 }
       else none
     | _ => none
   | .dCloseIn =>
